@@ -19,6 +19,8 @@ Round 2 (the brief told the sub-agents that a thorough randomised differential g
 
 Round 3 (one change per property; the brief listed every dimension the generators were by then known to cover and asked for a trigger outside all of them): 4 of 20 caught at first contact by their own property's check (C04, C11, C18, C19), 5 of 20 by some check (C02's by C16's thread rounds, probabilistically). The sixteen misses named dimensions that were genuinely absent: the interpreter's own configuration (-O, int digit limit, locale), ambient process state (decimal context), object lifetime (environment garbage-collected while its queries live), the package's DEFAULT_ENV being reconfigured, declarations changed in place on a registered object, the traversal mode flipped between compile and apply, an application dying part-way and the query being reused, strings holding JSON text as the query argument, two-character coordinated damage inside one escape, one object occurring twice inside a comparand, threads inside the same container comparison, several live iterators in nondeterministic mode, arrays beyond 2^17 elements.
 
+Round 4 (two changes per property, this time *realistic maintenance work*: A a performance change - fast path, cache, precomputation - and B a refactoring, clean-up, robustness or small feature change, each with a believable motivation and correct on the common path): 32 of 40 caught at first contact by their own property's check. Of the 8 misses, 5 were caught at once by a neighbouring property's check aimed at the same mechanism (C09 for C04's and C13's escape changes, C01/C02 for C06's fast path, C16 for C14's shared filter context, C18 for C17's cycle detector); 3 were caught by no check (C05's two and C15's `find_one('$')`). The sub-agents' side remarks on the unchanged code led to findings AP and AQ.
+
 Every miss was a region the generators did not reach, never an oracle that accepted the wrong behaviour; each led to a general widening of a generator, described in the `first contact` column and in DESIGN.md section 6.
 """
 
@@ -35,7 +37,7 @@ for d in sorted(glob.glob("/verif/seeded/*/")):
     if os.path.exists(p):
         metas.append((os.path.basename(d.rstrip("/")), json.load(open(p))))
 missing = []
-for rnd in (1, 2, 3):
+for rnd in (1, 2, 3, 4):
     out.append(f"\n## Round {rnd}\n\n| id | needs, to manifest | first contact | now (quick tier, seed 1) |\n|---|---|---|---|\n")
     for sid, m in metas:
         if m.get("round", 1) != rnd:
